@@ -116,6 +116,7 @@ fn pairs(u: &mut Unstructured, uni: u32, dom: u8, max: usize) -> Result<Vec<Pair
 pub fn decode_op(u: &mut Unstructured, kind: Kind, uni: u32, dom: u8, leaks: bool) -> Result<Op> {
     let endhow = |u: &mut Unstructured| -> Result<EndHow> { Ok(if leaks && u.int_in_range(0u8..=4)? == 0 { EndHow::Forget } else { EndHow::Drop }) };
     Ok(match u.int_in_range(0u8..=67)? {
+        64 if u.arbitrary::<bool>()? => Op::IterMutEach { how: u.arbitrary()?, k: u.arbitrary()?, rw: rewrite(u, dom)?, rwmask: mask(u)? },
         64 => Op::Snapshot,
         65 | 66 => Op::RestoreFrom,
         67 => Op::Adapt { which: ItKind::IterMut, comp: *u.choose(&crate::gen::ALL_COMPS)?, a: u.arbitrary()?, b: u.arbitrary()? },
